@@ -546,6 +546,37 @@ def translate (U : Univ) (a : Obj) (tgt : Nat) : Except Err Obj :=
   | .mod _ => .error .attrErr
   | _ => .error .typeErr
 
+/-! ### unary operators and methods -/
+
+/-- `-x`, `~x`, `x.linv()`, `x.rinv()`, `x.normalized()`, `x.unitary()` -/
+inductive UnOp where
+  | neg | inv | linv | rinv | normalized | unitary
+deriving DecidableEq, Repr
+
+/-- the algebra objects of the harness: 0 = HRR, 1 = VTB (no left inverse), 2 = TVTB -/
+def noLeftInverse (alg : Nat) : Bool := alg == 1
+
+/-- A unary operator or method creates a NEW object that belongs to the same vocabulary:
+`SemanticPointer`: `SemanticPointer(data=…, vocab=self.vocab, algebra=self.algebra, …)`;
+`PointerSymbol`: `PointerSymbol(expr, self.type)`; `DynamicNode`: `Transformed(self, transform, self.type)`
+(`__neg__`), resp. the inversion matrix of `self.type.vocab.algebra` (needs a vocabulary type; dynamic
+nodes have no `normalized`/`unitary`).  VTB refuses the left inverse.  Other operand kinds are not
+modelled (the harness applies these to pointers, symbols and nodes only). -/
+def unary (U : Univ) (u : UnOp) (a : Obj) : Except Err Obj :=
+  match a with
+  | .ptr v alg l => if u = .linv ∧ noLeftInverse alg then .error .notImpl else .ok (.ptr v alg l)
+  | .sym t => .ok (.sym t)
+  | .dyn t g =>
+    match u with
+    | .neg => .ok (.dyn t g)
+    | .normalized => .error .attrErr
+    | .unitary => .error .attrErr
+    | _ =>
+      match t with
+      | .vocab v => if u = .linv ∧ noLeftInverse (U.valg v) then .error .notImpl else .ok (.dyn t g)
+      | _ => .error .spaType
+  | _ => .error .badRef
+
 /-! ### worlds and histories -/
 
 /-- The objects of a program; `none`: the slot of an operation that produced no object. -/
@@ -555,6 +586,7 @@ inductive Op where
   | bin (k : BinOp) (i j : Nat)
   | reinterp (i : Nat) (tgt : Option Nat)
   | translate (i : Nat) (tgt : Nat)
+  | unary (u : UnOp) (i : Nat)
 deriving DecidableEq, Repr
 
 def get (w : World) (i : Nat) : Except Err Obj :=
@@ -588,6 +620,13 @@ def step (U : Univ) (w : World) : Op → World × Except Err Val
     match get w i with
     | .ok a =>
       match translate U a tgt with
+      | .ok o => (w ++ [some o], .ok (.obj o))
+      | .error e => (w ++ [none], .error e)
+    | .error e => (w ++ [none], .error e)
+  | .unary u i =>
+    match get w i with
+    | .ok a =>
+      match unary U u a with
       | .ok o => (w ++ [some o], .ok (.obj o))
       | .error e => (w ++ [none], .error e)
     | .error e => (w ++ [none], .error e)
